@@ -206,7 +206,7 @@ pub fn run(ctx: &mut Ctx) {
     ctx.extra.insert("flip_reads".into(), serde_json::json!({"completed": g.0, "errored": g.1, "identical_content": g.2}));
     ctx.exhaustive_all = true;
 
-    let n = ctx.q(20000, 400000);
+    let n = ctx.q(120000, 1000000);
     let nseeds = seeds.len();
     ctx.explore::<(Damage, u8)>(
         "damage",
